@@ -3,6 +3,7 @@ package main
 // Semantics of SSA instructions (non-terminators).
 
 import (
+	"fmt"
 	"go/constant"
 	"go/token"
 	"go/types"
@@ -300,6 +301,21 @@ func (ex *Exec) subPtr(s *State, p *PtrV, el PathEl, site string) *PtrV {
 		r.alts = append(r.alts, PAlt{g: a.g, obj: a.obj, path: np})
 	}
 	if len(nilG) > 0 {
+		if debugVC {
+			fmt.Printf("SUBPTRNIL %s: alts=%d nil=%d\n", site, len(p.alts), len(nilG))
+			cnt := map[int]int{}
+			for _, a := range p.alts {
+				cnt[a.obj]++
+			}
+			fmt.Printf("   objects: %v\n", cnt)
+			for id := range cnt {
+				if id != 0 {
+					if av, ok := s.heap[id]; ok {
+						_ = av
+					}
+				}
+			}
+		}
 		ex.vc(s, "panic", site+": nil dereference", ex.tb.Or(nilG...))
 	}
 	if len(r.alts) == 0 {
